@@ -401,6 +401,24 @@ for st in steps:
                 "hertz_to_scale": (lambda self, h: h), "get_impulse_response": (lambda self, w: None), "apply": (lambda self, *a, **k: None)}
         ns[name] = type(name, (ns[base],), body)
         LINEAR[name] = True
+    elif st[0] == "defaultwin":
+        # a computer built WITHOUT window_function: the documented default is the class GammaWindow (causal) / HannWindow (otherwise),
+        # whatever other classes now answer to the aliases "gamma" / "hann"
+        import numpy as np
+        _, kind, style = st
+        del BUILT[:]
+        try:
+            bank = filters.GaborFilterBank("mel", num_filts=2, sampling_rate=1000, high_hz=480.0)
+            make = (lambda **kw: compute.ShortTimeFourierTransformFrameComputer(bank, frame_length_ms=8, frame_shift_ms=4, frame_style=style, **kw)) if kind == "stft" else \
+                   (lambda **kw: compute.ShortIntegrationFrameComputer(bank, frame_shift_ms=4, frame_style=style, **kw))
+            c1 = make()
+            used = list(BUILT)
+            c2 = make(window_function=(filters.GammaWindow() if style == "causal" else filters.HannWindow()))
+            x = np.sin(np.arange(57) * 0.7) + 0.1
+            same = np.array_equal(c1.compute_full(x), c2.compute_full(x))
+            out.append("stock" if same and not used else "NOT-THE-DOCUMENTED-DEFAULT:" + ",".join(used))
+        except Exception as e:
+            out.append("EXC:" + repr(e)[:100] + " built " + ",".join(BUILT))
     elif st[0] == "nested":
         # the alias used where a bank takes its scaling function (bare string / {"name": ..} / {"alias": ..}): the classes
         # defined by this script map Hz to themselves, so their banks have centres equally spaced in Hz
@@ -448,7 +466,9 @@ def expected_for(steps):
     exp = []
     strict = set()
     for st in steps:
-        if st[0] == "defplain":
+        if st[0] == "defaultwin":
+            exp.append(("stock", None))
+        elif st[0] == "defplain":
             clock += 1
             parent[st[1]] = st[2]
             aliases[st[1]] = list(aliases.get(st[2], []))  # inherited
@@ -515,6 +535,9 @@ DIRECTED = {
                                    ["factory", "ScalingFunction", "Kaiser-Bessel", "string"], ["factory", "ScalingFunction", "ERB", "name"], ["factory", "ScalingFunction", "erb", "string"],
                                    ["factory", "ScalingFunction", "Mel", "string"], ["factory", "ScalingFunction", " mel", "string"], ["factory", "ScalingFunction", "mel\n", "string"],
                                    ["factory", "ScalingFunction", "MEL", "alias"], ["nested", "gabor", "string", "ERB"], ["factory", "ScalingFunction", "mel", "string"]],
+    "default_window_is_the_documented_class": [["defaultwin", "stft", "centered"], ["def", "X", "WindowFunction", "set", ["hann", "gamma"]], ["defaultwin", "stft", "centered"],
+                                               ["defaultwin", "stft", "causal"], ["defaultwin", "si", "centered"], ["defaultwin", "si", "causal"], ["defplain", "P", "HannWindow"],
+                                               ["defaultwin", "stft", "centered"], ["lookup", "WindowFunction", "hann"]],
     "shadow_own_parent_then_sibling": [["def", "P", "PreProcessor", "set", ["p"]], ["def", "C", "P", "set", ["p"]], ["def", "S", "PreProcessor", "set", ["p"]],
                                        ["lookup", "PreProcessor", "p"], ["lookup", "P", "p"]],
 }
@@ -560,12 +583,18 @@ def run_scenario(mon, rec, name, steps, workdir):
         rec.inconc("scenario runner failed: %r" % (e,))
         return
     want, parent, order = expected_for(steps)
-    lookups = [s for s in steps if s[0] in ("lookup", "nested", "factory")]
+    lookups = [s for s in steps if s[0] in ("lookup", "nested", "factory", "defaultwin")]
     rec.count("scenarios")
     collision = False
     for (st, g, (w, wcls)) in zip(lookups, got, want):
         rec.ev()
         rec.count("scenario_lookups")
+        if st[0] == "defaultwin":
+            rec.count("scenario_default_window_builds")
+            if g != w:
+                mon.v("scenario %s: a %s computer (%s) built without window_function does not use the documented default window class: %s" % (name, st[1], st[2], g),
+                      check="default_window", scenario=name, steps=steps)
+            continue
         if st[0] == "nested":
             rec.count("scenario_nested_scale_lookups")
             if g != w:
@@ -624,6 +653,10 @@ def explicit_twin(cfg):
         bkw["scaling_function"] = scale(bkw["scaling_function"])
     bank = BK[bn](**bkw)
     kw["window_function"] = window(kw.get("window_function"))
+    if kw["window_function"] is None:
+        # left out: the documented default is an object of the class GammaWindow for causal frames, HannWindow otherwise
+        style = kw.get("frame_style") or ("centered" if bank.is_zero_phase else "causal")
+        kw["window_function"] = F.GammaWindow() if style == "causal" else F.HannWindow()
     return {"stft": C.ShortTimeFourierTransformFrameComputer, "si": C.ShortIntegrationFrameComputer}[n](bank, **kw)
 
 
